@@ -11,16 +11,19 @@ from vlib import sqlo
 
 PROP = 'C10'
 META = {
-    'extractors': ['slice', 'getitem'],
-    'technique': 'Lean 4 proof (induction over the slice chain; window algebra) about the source as TRANSLATED on every run (PyMini translation of __getitem__, extracted LIMIT/OFFSET if-chains) + differential correspondence',
+    'extractors': ['slice', 'getitem', 'selops'],
+    'technique': 'Lean 4 proof (induction over the slice chain; window algebra) about the source as TRANSLATED on every run (PyMini translation of __getitem__, PyOps translation of clone/__init__ on a heap of select objects, extracted LIMIT/OFFSET if-chains) + differential correspondence',
     'level_text': ('Theorems C10_chain_eq_list_slicing / C10_translated_chain_eq_list_slicing: for every row list, every '
                    'chain of slices and optional index, SelectResults.__getitem__ + the dialect window clause equals '
                    'Python list slicing, for sqlite, mysql and postgres.  __getitem__ itself is TRANSLATED from /repo on '
                    'every run into a deeply embedded Python fragment (PyMini) and proved equal to the model on ALL '
                    'inputs by symbolic execution (C10_translated_slice/index_eq_model); the dialect clause if-chains and '
-                   'the guard in Select.__sqlrepr__ are regenerated too; the translated program is additionally run '
+                   'the guard in Select.__sqlrepr__ are regenerated too; clone() and the ops-touching part of __init__ are translated into a heap '
+                   'embedding (PyOps): C10_translated_clone_fresh (no existing ops dict is written, any heap/oracle) and '
+                   'C10_translated_session_eq_list_slicing (any session re-slicing any earlier select: every variable, read '
+                   'afterwards, equals the list session); the translated program is additionally run '
                    'against the real code on an exhaustive small scope plus random chains.'),
-    'level_note': ('Trusted: Lean kernel; translator vlib/extractors/getitem.py + PyMini semantics (Python semantics of ints/None/and/or/not/if/assert), extractor vlib/extractors/slice.py; reference LIMIT/OFFSET semantics '
+    'level_note': ('Trusted: Lean kernel; translators vlib/extractors/getitem.py + PyMini semantics (Python semantics of ints/None/and/or/not/if/assert) and vlib/extractors/selops.py + PyOps semantics (dict copy/update/get/pop/del, **kwargs always a new dict; statements not mentioning an ops dict are skipped, their values are oracle-quantified; syntactic scan: no other function of sresults.py / inheritance writes an ops dict), extractor vlib/extractors/slice.py; reference LIMIT/OFFSET semantics '
                    '(SQLite cross-checked by execution; MySQL `LIMIT n,-1` = to the end and PostgreSQL semantics from '
                    'documentation); the sampling correspondence of __getitem__.'),
     'rule': ('cases = (dialect, table size n, chain of slices, optional index, ordering variant); exhaustive over bounds in '
@@ -170,6 +173,60 @@ def run_reuse(n, ops, ix, variant):
     return out
 
 
+def gen_sessions(ctx):
+    rng = ctx.rng
+    out = [(6, [(0, 0, 2), (0, 2, 4), (1, 1, None), (0, None, None)]),
+           (6, [(0, 0, 3), (0, 3, 6), (0, 0, 3), (1, 1, None), (0, 4, None)]),
+           (5, [(0, -2, None), (1, 0, 1), (0, 1, 4), (3, -2, None), (0, None, None)])]
+    for _ in range(ctx.budget(400, 20000)):
+        n = rng.randint(0, 8)
+
+        def bnd():
+            r = rng.random()
+            if r < 0.25:
+                return None
+            if r < 0.85:
+                return rng.randint(0, n + 2)
+            return rng.randint(-n - 2, -1)
+        k = rng.randint(2, 6)
+        ops = []
+        for j in range(k):
+            # mostly re-slice the base or an early window: that is what pagination does
+            i = 0 if rng.random() < 0.5 else rng.randint(0, j)
+            ops.append((i, bnd(), bnd()))
+        out.append((n, ops))
+    return out
+
+
+def run_session(n, ops, variant):
+    """v_k = v_i[a:b] for every statement; every variable read AFTER the whole session.
+    -> (implementation answer, list answer), both `rows … ; rows …`"""
+    base = base_select(n, variant)
+    full = list(base)
+    rank = {obj.id: i for i, obj in enumerate(full)}
+    vals, lists = [base], [list(range(len(full)))]
+    for i, a, b in ops:
+        lists.append(lists[i][a:b])
+        v = vals[i]
+        if isinstance(v, str):
+            vals.append(v)
+            continue
+        try:
+            vals.append(v[a:b])
+        except Exception as e:
+            vals.append('error:%s' % type(e).__name__)
+    got = []
+    for v in vals:
+        if isinstance(v, str):
+            got.append(v)
+            continue
+        try:
+            got.append('rows' + ''.join(' %d' % rank[o.id] for o in list(v)))
+        except Exception as e:
+            got.append('error:%s' % type(e).__name__)
+    return ' ; '.join(got), ' ; '.join('rows' + ''.join(' %d' % x for x in l) for l in lists)
+
+
 def sql_text(sel, dialect):
     from sqlobject.sresults import SelectResults
     from sqlobject.sqlbuilder import sqlrepr
@@ -235,7 +292,24 @@ def run(ctx):
     for (n, ops, ix) in cases:
         for d in dialects:
             lines.append(line_for(d, n, ops, ix))
+    sessions = gen_sessions(ctx)
+    nchain = len(lines)
+    for (n, sops) in sessions:
+        lines.append('S sqlite %d ' % n + ' '.join('%d:%s:%s' % (i, fmt_bound(a), fmt_bound(b)) for i, a, b in sops))
     outs = ctx.model(lines)
+    for sidx, (n, sops) in enumerate(sessions):
+        variant = VARIANTS[sidx % len(VARIANTS)]
+        got, want = run_session(n, sops, variant)
+        desc = {'n': n, 'session': sops, 'order': variant}
+        ctx.case(('session', n, tuple(sops)), nontrivial=True, kind='session-%d' % len(sops),
+                 sample={'case': desc, 'impl': got, 'list': want})
+        if got != want:
+            ctx.oracle_fail('C10:session %d %s' % (n, sops),
+                            'one select of %d rows (order %s), session %s (statement k: v_k = v_i[a:b]); variables read '
+                            'afterwards give %s, the lists give %s' % (n, variant, sops, got, want), desc)
+        if outs is not None:
+            ctx.compare('session on the heap of selects: translated clone/__init__/__getitem__ = SelectResults on SQLite',
+                        desc, outs[nchain + sidx], got)
     k = 0
     for idx, (n, ops, ix) in enumerate(cases):
         variant = VARIANTS[idx % len(VARIANTS)]
@@ -270,6 +344,9 @@ def run(ctx):
 
 def replay(case):
     env()
+    if 'session' in case:
+        got, want = run_session(case['n'], [tuple(x) for x in case['session']], case.get('order', 'v'))
+        return got == want, 'implementation: %s\nlist oracle  : %s' % (got, want)
     ops = [tuple(x) for x in case['ops']]
     if case.get('reuse'):
         r = run_reuse(case['n'], ops, case['index'], case.get('order', 'v'))
